@@ -497,15 +497,25 @@ Definition integrate (g : grid) (f : tag) : M (tag * how) :=
 (* which = 'total' / 'correlations' *)
 Inductive pwhich := Total | Correlations.
 
-Definition infidelity (g : grid) (pw : pwhich) (traceless : bool) (ci : bool) : M (tag * how) :=
+(* numeric.infidelity since commit 2891db3: for every basis the fidelity filter function AND the control matrix
+   are requested (the identity component of the noise operators is subtracted); for the pulse correlations the
+   pulse-correlation control matrix is used when it is cached *)
+Definition integrate2 (g : grid) (f c : tag) : M (tag * how) :=
+  may_raise L_integrand ;;; v <- lift (derive g [f; c]) ;; may_raise L_integrate ;;; ret (v, Computed).
+
+Definition infidelity (g : grid) (pw : pwhich) (ci : bool) : M (tag * how) :=
   match pw with
   | Total =>
-      r <- (if traceless then get_ff g Fidelity First ci else get_cm g ci) ;;
-      integrate g (fst r)
+      r <- get_ff g Fidelity First ci ;;
+      r2 <- get_cm g ci ;;
+      integrate2 g (fst r) (fst r2)
   | Correlations =>
       c <- is_cached S_omega ;; e <- omega_equal g ;;
       if c && negb e then raise E_value
-      else r <- get_pcff Fidelity ;; integrate g (fst r)
+      else r <- get_pcff Fidelity ;;
+           c2 <- is_cached S_control_matrix_pc ;;
+           if c2 then r2 <- get_pccm ;; integrate2 g (fst r) (fst r2)
+           else integrate g (fst r)
   end.
 
 Definition decay_amplitudes (g : grid) (pw : pwhich) (ci : bool) : M (tag * how) :=
@@ -576,7 +586,7 @@ Inductive op :=
 | TplProp | TProp | TauProp
 | Cleanup (m : cleanup_method)
 | BadParams                     (* any call rejected before its first effect (ValueError) *)
-| Infidelity (g : grid) (pw : pwhich) (traceless ci : bool)
+| Infidelity (g : grid) (pw : pwhich) (ci : bool)
 | DecayAmplitudes (g : grid) (pw : pwhich) (ci : bool)
 | Cumulant (g : grid) (pw : pwhich) (second : bool) (cio : option bool)
 | ErrorTransferMatrix (g : grid) (second ci : bool)
@@ -612,7 +622,7 @@ Definition run_op (o : op) : M (option (tag * how)) :=
   | TauProp => noret tau_prop
   | Cleanup m => noret (cleanup_user m)
   | BadParams => raise E_value
-  | Infidelity g pw tl ci => withret (infidelity g pw tl ci)
+  | Infidelity g pw ci => withret (infidelity g pw ci)
   | DecayAmplitudes g pw ci => withret (decay_amplitudes g pw ci)
   | Cumulant g pw s cio => withret (cumulant g pw s cio)
   | ErrorTransferMatrix g s ci => withret (error_transfer_matrix g s ci)
